@@ -73,6 +73,14 @@ def mkval(b, vtype):
         return memoryview(array.array("I", b))
     if vtype == "mv_H":
         return memoryview(array.array("H", b))
+    if vtype == "mv_d":
+        return memoryview(array.array("d", b))
+    if vtype == "mv_2d":      # two-dimensional byte view: len() is the first dimension only
+        return memoryview(b).cast("B", shape=[len(b) // 4, 4]) if len(b) >= 4 else memoryview(b)
+    if vtype == "mv_2dH":     # two-dimensional view of 2-byte items
+        return memoryview(b).cast("H", shape=[len(b) // 6, 3]) if len(b) >= 6 else memoryview(b)
+    if vtype == "mv_slice":   # a slice of a larger buffer
+        return memoryview(b"xy" + b + b"z")[2:2 + len(b)]
     return b
 
 
@@ -323,12 +331,16 @@ def gen_msg(rng, hostile):
         if k in seen:
             continue
         seen.add(k)
-        vtype = rng.choice(["bytes", "bytes", "bytearray", "memoryview", "mv_I", "mv_H"])
-        n = rng.choice([0, 0, 1, 4, 8, 17, rng.randint(0, 60)])
-        if vtype == "mv_I":
+        vtype = rng.choice(["bytes", "bytes", "bytearray", "memoryview", "mv_I", "mv_H", "mv_d", "mv_2d", "mv_2dH", "mv_slice"])
+        n = rng.choice([0, 0, 1, 4, 8, 17, 24, rng.randint(0, 60)])
+        if vtype in ("mv_I", "mv_2d"):
             n -= n % 4
         if vtype == "mv_H":
             n -= n % 2
+        if vtype == "mv_d":
+            n -= n % 8
+        if vtype == "mv_2dH":
+            n -= n % 6
         anns.append([k, [rng.randrange(256) for _ in range(n)], vtype])
     m = {"type": gen_field(rng, 8), "flags": gen_field(rng, 16), "seq": gen_field(rng, 16), "ser": gen_field(rng, 8),
          "payload": gen_payload(rng, True), "anns": anns,
@@ -439,6 +451,10 @@ def targeted(consts):
     out.append({"kind": "encode", "cfg": {"compression": False, "max_size": BIG},
                 "msg": {"type": 4, "flags": 0, "seq": 7, "ser": 1, "payload": [1, 2, 3],
                         "anns": [["ABCD", [1, 0, 0, 0, 2, 0, 0, 0], "mv_I"]], "corr": None}})
+    for vt, n in (("mv_2d", 24), ("mv_2dH", 24), ("mv_d", 16), ("mv_slice", 5)):
+        out.append({"kind": "encode", "cfg": {"compression": False, "max_size": BIG},
+                    "msg": {"type": 4, "flags": 0, "seq": 9, "ser": 1, "payload": [1, 2, 3],
+                            "anns": [["ABCD", list(range(n)), vt], ["EFGH", [7], "bytes"]], "corr": None}})
     return out
 
 
